@@ -157,6 +157,13 @@ def check_case(ctx, data, q):
     text = qgen.render_query(q)
     params = qgen.query_params(q)
     required, optional, unspecified = qgen.ref_rows(q, mirror)
+    if q['result'][0] == 'exprs' and not qgen.is_aggregated(q) and q.get('cond') is not None and qgen.has_coll_aggregate(q['cond']):
+        # an aggregate over a collection inside the condition of a projection query is a query-level aggregate for Pony
+        # (HAVING with GROUP BY over the projected expressions), not a per-object value: outside the asserted domain
+        # unless the projection identifies the object
+        res_items = q['result'][1]
+        if not any(r[0] == 'objref' or (r[0] == 'attr' and r[2] == 'id') for r in res_items):
+            unspecified += 1
     forms = ['string', 'generator']
     if len(q['loops']) == 1 and q['result'][0] == 'obj':
         forms.append('lambda')
